@@ -517,6 +517,7 @@ def native_stage(chk, pid):
         open(f, "w").write(mine[1])
         chk.add_violation("native-distances", f, mine[2], True)
     cli_stage(chk, exe, pid)
+    xcmp_cli_stage(chk, exe, pid)
     return exe
 
 
@@ -586,6 +587,51 @@ def cli_stage(chk, exe, pid):
         f = os.path.join(hv.OUTROOT, "replay", "%s-native-cli.S" % pid)
         open(f, "w").write(src)
         chk.add_violation("native-cli", f, why, True)
+
+
+def xcmp_cli_stage(chk, exe, pid):
+    """a reader's check of `xcmp -S` listings against the binaries xcmp writes, for the X programs shipped in tests/x (the
+    compiler builds its directive objects directly, not through the assembler's parser), and of `hexasm --instrs` for
+    tests/asm: every listed item's bytes are where, as many and what the listing says; label operands reach the listed label"""
+    import glob
+    xcmp = os.path.join(chk.out, "xcmp_cli")
+    hexasm = os.path.join(chk.out, "hexasm_cli")
+    hv.build_native(os.path.join(hv.REPO, "xcmp.cpp"), xcmp, extra=[os.path.join(hv.REPO, "hex.cpp")], opt="-O0", hooks=False)
+    if not os.path.exists(hexasm):
+        hv.build_native(os.path.join(hv.REPO, "hexasm.cpp"), hexasm, extra=[os.path.join(hv.REPO, "hex.cpp")], opt="-O1", hooks=False)
+    d = os.path.join(chk.out, "scratch", "xcli")
+    os.makedirs(d, exist_ok=True)
+    n, items, why, bad = 0, 0, "", None
+    for f in sorted(glob.glob(os.path.join(hv.REPO, "tests", "x", "*.x"))) + sorted(glob.glob(os.path.join(hv.REPO, "tests", "asm", "*.S"))):
+        tool = xcmp if f.endswith(".x") else hexasm
+        try:
+            os.remove(os.path.join(d, "a.out"))
+        except OSError:
+            pass
+        rc, o, e, _ = hv.run([tool, f], cwd=d, timeout=120)
+        if rc != 0 or not os.path.exists(os.path.join(d, "a.out")):
+            continue   # sources the tool rejects (or crashes on) are not this property's business
+        rc, lst, e, _ = hv.run([tool, f, "-S" if tool == xcmp else "--instrs"], cwd=d, timeout=120)
+        if rc != 0:
+            continue
+        open(os.path.join(d, "p.lst"), "w").write(lst)
+        rc, o, e, _ = hv.run([exe, "checklisting", "p.lst", "a.out"], cwd=d, timeout=120)
+        try:
+            r = json.loads(o)
+        except Exception:
+            raise hv.Infra("checklisting failed on %s: %s" % (f, (o + e)[-300:]))
+        n += 1
+        items += r.get("items_checked", 0)
+        if not r.get("ok") and not why:
+            why, bad = "%s: %s" % (os.path.basename(f), r.get("why")), f
+    chk.native.append({"stage": "listings of the xcmp / hexasm executables (-S / --instrs) checked against the binaries they write, from the two files alone (shipped X and assembly programs)",
+                       "programs": n, "listed_items_checked": items, "ok": not why, "why": why})
+    if n < 10:
+        raise hv.Infra("only %d shipped programs could be compiled for the listing check" % n)
+    if why and not chk.violations:
+        p = os.path.join(hv.OUTROOT, "replay", "%s-native-listing.txt" % pid)
+        open(p, "w").write("%s\n%s\n" % (bad, why))
+        chk.add_violation("native-listing", p, why, True)
 
 
 def native_only(chk):
